@@ -2,6 +2,8 @@ package main
 
 import (
 	"fmt"
+	"os"
+	"path/filepath"
 	"strings"
 )
 
@@ -73,6 +75,46 @@ func c16CLI(e *Env) {
 				if o.Code == 0 && !strings.Contains(o.Stdout, "synced") {
 					e.Res.Violate("failing-input", "schema-name-leaks", fmt.Sprintf("%s: two schema-bound connections with the same tables under different schema names are not in sync: %s", sc, trunc(o.Stdout, 400)), "Props.C16.no_own_schema (CLI)", map[string]any{"case": sc + " in-sync"})
 				}
+			}
+		}
+		// `migrate diff` with a schema-bound dev connection: the written file is free of schema names – with and
+		// without --schema – and --qualifier is honoured (and is the only qualifier) in both cases
+		mdiff := func(k int, extra ...string) (cliOut, string) {
+			md := fmt.Sprintf("c16m-%s-%d", sc, k)
+			os.RemoveAll(filepath.Join(dir, md))
+			args := append([]string{"migrate", "diff", "x", "--dir", "file://" + md, "--dev-url", bound(devSchema, "1"), "--to", bound(markerSchema, "2")}, extra...)
+			o := runAtlas(e, dir, nil, args...)
+			var text strings.Builder
+			fs, _ := filepath.Glob(filepath.Join(dir, md, "*.sql"))
+			for _, f := range fs {
+				b, _ := os.ReadFile(f)
+				text.Write(b)
+			}
+			os.RemoveAll(filepath.Join(dir, md))
+			o.Stdout = text.String()
+			return o, text.String()
+		}
+		o0, base := mdiff(0)
+		judge("migrate diff (schema-bound dev)", o0, "TBLA", "TBLC")
+		o1, withSchema := mdiff(1, "--schema", devSchema)
+		judge("migrate diff --schema (schema-bound dev)", o1, "TBLA", "TBLC")
+		if o0.Code == 0 && o1.Code == 0 && base != withSchema {
+			e.Res.Violate("failing-input", "schema-flag-changes-plan", fmt.Sprintf("%s: `migrate diff` with a schema-bound dev connection writes another file when --schema names that same schema:\n%s\n-- vs --\n%s", sc, trunc(base, 300), trunc(withSchema, 300)), "Props.C16.no_own_schema (CLI)", map[string]any{"case": sc + " migrate diff --schema"})
+		}
+		const custom = "qq_7e1"
+		o2, qual := mdiff(2, "--qualifier", custom)
+		o3, qualSchema := mdiff(3, "--schema", devSchema, "--qualifier", custom)
+		e.Res.Count("cli:"+sc+":migrate diff --qualifier", true, "cli:"+sc)
+		for _, t := range []struct {
+			o    cliOut
+			text string
+			id   string
+		}{{o2, qual, "--qualifier"}, {o3, qualSchema, "--schema --qualifier"}} {
+			switch {
+			case t.o.Code != 0:
+				e.Res.Violate("failing-input", "cli-fails", fmt.Sprintf("%s migrate diff %s: exit %d: %s", sc, t.id, t.o.Code, trunc(t.o.Stderr, 300)), "Props.C16 CLI", map[string]any{"case": sc + " migrate diff " + t.id})
+			case !strings.Contains(t.text, q+custom+q+"."+q+"TBLC"+q) || strings.Contains(t.text, devSchema) || strings.Contains(t.text, markerSchema):
+				e.Res.Violate("failing-input", "custom-qualifier-ignored", fmt.Sprintf("%s migrate diff %s %s: the tables of the written file are not qualified with it (and only it): %s", sc, t.id, custom, trunc(t.text, 400)), "Props.C16.custom_qualifier (CLI)", map[string]any{"case": sc + " migrate diff " + t.id})
 			}
 		}
 		// a realm-bound connection: tables of the two schemas are told apart by their qualifier
